@@ -92,6 +92,10 @@ def join(a, b):
         if a.kind == "scalar":
             flags = a.flags & b.flags
         ref = a.ref if a.ref == b.ref else None
+        if a.kind == "func" and ref is None and a.ref is not None and b.ref is not None:
+            # a choice between two callables (f = g if c else h): applying it may apply either
+            alts = (list(a.ref[1]) if a.ref[0] == "choice" else [a]) + (list(b.ref[1]) if b.ref[0] == "choice" else [b])
+            ref = ("choice", tuple(alts))
         return AV(a.kind, a.alias | b.alias, elem, items, flags, ref)
     # scalar joined with something: keep the richer one (None/int defaults)
     if a.kind == "scalar":
@@ -1008,6 +1012,11 @@ class _State:
             return self.call_ext_method(r[2], r[1], args, kwargs, node, env)
         if tag == "partial":
             return self.apply(r[1], list(r[2]) + list(args), dict(r[3], **kwargs), node, env)
+        if tag == "choice":
+            out = None
+            for alt in r[1]:
+                out = join(out, self.apply(alt, args, kwargs, node, env))
+            return out if out is not None else UNKNOWN
         if tag == "vectorized":
             return col()
         if tag == "itemgetter":
